@@ -282,3 +282,18 @@ add("C17", "compiled line search halves after the reset", "nifty/re/optimize.py"
     "\n        do_reset = (i == 5) & (status < -1)\n        reset = jnp.where(do_reset, True, reset)\n        grad_scaling = jnp.where(do_reset, 1.0, grad_scaling)\n        grad_scaling = jnp.where(status < -1, grad_scaling / 2, grad_scaling)\n", "R17.4")
 add("C17", "trust region takes the farther boundary point", "nifty/re/conjugate_gradient.py", "p_boundary = where(soa(pa) < soa(pb), pa, pb)", "p_boundary = where(vdot(z, d) > 0, pa, pb)", "R17.5")
 VARIANTS = V
+
+add("C02", "nested sum signs combined with or", OPS + "sum_operator.py", "                if ng:\n                    negnew += [not n for n in op._neg]\n                else:\n                    negnew += list(op._neg)",
+    "                negnew += [n or ng for n in op._neg]", "R02.8")
+add("C01", "nested sum signs combined with or", OPS + "sum_operator.py", "                if ng:\n                    negnew += [not n for n in op._neg]\n                else:\n                    negnew += list(op._neg)",
+    "                negnew += [n or ng for n in op._neg]", "R01.5")
+add("C02", "slice adjoint buffer without dtype", OPS + "selection_operators.py", "res = np.zeros(self.domain.shape, x.dtype)", "res = np.zeros(self.domain.shape)", "R02.9")
+add("C02", "outer product adjoint without conjugation", OPS + "outer_product_operator.py", "np.tensordot(self._field.val.conj(), x.val, axes)", "np.tensordot(self._field.val, x.val, axes)", "R02.10")
+add("C28", "amplitude normalised without the volume", "nifty/re/correlated_field.py", "            amplitude = flu * (jnp.sqrt(self.grid.total_volume) / norm) * spectrum\n", "            amplitude = flu * (1.0 / norm) * spectrum\n", "R28.1")
+add("C28", "power kind normalised like amplitude kind", "nifty/re/correlated_field.py", "            norm = jnp.sqrt(jnp.sum(mode_multiplicity[1:] * spectrum[1:]))\n            norm /= jnp.sqrt(\n                self.grid.total_volume\n            )  # Due to integral in harmonic space\n            amplitude = (",
+    "            norm = jnp.sqrt(jnp.sum(mode_multiplicity[1:] * spectrum[1:] ** 2))\n            norm /= jnp.sqrt(\n                self.grid.total_volume\n            )  # Due to integral in harmonic space\n            amplitude = (", "R28.1")
+add("C28", "zero mode not set to the volume", "nifty/re/correlated_field.py", "        amplitude = amplitude.at[0].set(self.grid.total_volume)\n        return amplitude", "        return amplitude", "R28.1")
+add("C28", "jax matern exponent", "nifty/re/correlated_field.py", "            0.25 * slp * jnp.log1p((self.grid.harmonic_grid.mode_lengths / ctf) ** 2)", "            0.5 * slp * jnp.log1p((self.grid.harmonic_grid.mode_lengths / ctf) ** 2)", "R28.2")
+add("C28", "classic matern volume factor", "nifty/cl/library/correlated_fields.py", "        vol1[1:] = totvol**0.5", "        vol1[1:] = totvol", "R28.2")
+add("C28", "classic matern cutoff power", "nifty/cl/library/correlated_fields.py", "cutoff = VdotOperator(k_squared).adjoint @ cutoff.power(-2.)", "cutoff = VdotOperator(k_squared).adjoint @ cutoff.power(-1.)", "R28.2")
+VARIANTS = V
